@@ -347,7 +347,17 @@ func checkDiagnostics(r *ev.Run, env *rt.Env, kind, src string, c *counters) {
 		} else if col < 1 || col > utf8.RuneCountInString(lines[ln-1])+1 {
 			r.Report("compile-error-column-outside-line", fmt.Sprintf("%q\n  %s (line is %q)", src, strings.ReplaceAll(msg, "\n", " | "), lines[ln-1]), replayIn{"D", "", src, kind}, m[0], "")
 		}
+		return
 	}
+	// a compile error that names no line and column at all
+	r.Report("compile-error-without-position:"+errorKind(msg), fmt.Sprintf("%q\n  %s", src, firstLine(msg)), replayIn{"D", "", src, kind}, firstLine(msg), "a line and a column")
+}
+
+// errorKind is the message of a compile error without the names and values it quotes.
+func errorKind(msg string) string {
+	s := strings.TrimPrefix(firstLine(msg), "compile error: ")
+	s = regexp.MustCompile(`"[^"]*"|\(.*\)|[0-9]+`).ReplaceAllString(s, "")
+	return strings.Join(strings.Fields(s), "-")
 }
 
 func panicSite(p string) string {
@@ -428,7 +438,7 @@ func Check(r *ev.Run, replay string) {
 		progen.F3(y)
 		progen.F5(y)
 		progen.F6(y)
-		progen.C02(false, y)
+		progen.C02Corpus(false, y)
 	}, func(env *rt.Env, p progen.Program) {
 		if p.Raw != "" {
 			return
